@@ -24,4 +24,13 @@ CHECKS = {
         "note": TLCNOTE + "Exact decision on lattices N<=16 and exact-similarity images; NaN/Inf handled as ordinate classes.",
         "technique": "TLA+ definitional validity oracle; TLC-enumerated polygon family replayed into Validate + TLC trace validation",
     },
+    "C01": {
+        "text": "The closure of the Boolean combination is defined in TLA+ (Overlay.tla) cell by cell on the exact arrangement of the "
+                "operands (every vertex, every edge midpoint, both faces beside every edge); TLC validates every recorded "
+                "Union/Intersection/Difference/SymmetricDifference/UnaryUnion/UnionMany result of the real library (lifted from floats to "
+                "arrangement vertices) against that definition, plus canonical shape, no error and validity.",
+        "note": TLCNOTE + "Exact decision on lattices N<=6 and their exact-similarity / general-position images; result vertices "
+                "checked to 2^-15; ambiguous lifts are inconclusive, never guessed.",
+        "technique": "TLA+ set-theoretic overlay oracle on the exact arrangement; TLC trace validation of recorded set-operation results",
+    },
 }
